@@ -201,7 +201,16 @@ class Constant(Expression):
 
     def __init__(self, value: float | int | ArrayLike) -> None:
         self._hash = None
-        self.value = np.asarray(value) if not isinstance(value, (int, float)) else value
+        if isinstance(value, (int, float)):
+            self.value = value
+        else:
+            arr = np.asarray(value)
+            if arr.dtype.kind == "f" and arr.dtype.itemsize < 8:
+                # a float16 / float32 constant would drag tree evaluation down to
+                # its precision (Python floats are weak scalars for NumPy), while
+                # compiled code computes in float64
+                arr = arr.astype(np.float64)
+            self.value = arr
 
     def evaluate(
         self, values: Mapping[str, ArrayLike | float]
